@@ -38,6 +38,7 @@ type Frame struct {
 	rangeOf    map[*ssa.Range]*rangeState
 	rangeOrd   map[*ssa.Range]int
 	allocOrder []*ssa.Alloc
+	aliasAlloc map[string]*ssa.Alloc // recorded local names that no longer exist → the local at their position
 	perReturn  func(st *State, results []*Val, k int, pos token.Pos)
 }
 
